@@ -14,14 +14,14 @@ Qed.
 
 Definition cfg2 (opt : bool) : config := mkConfig 2 2 opt true true true.
 
-Definition rdy (i : N) (tv : bool) : ready := mkReady 1 i i true tv i 1 i i.
+Definition rdy (i : N) (tv : bool) : ready := mkReady 1 i i true tv i 1 i i 0.
 
 (* one client write at index i (fixed code: the Ready's entry is committed in the same Ready, so it is saved
    before it is published); sn = np.snapi *)
 Definition ev_rd (i : N) (tv : bool) (cut : bool) : list event :=
   [EvRdBegin (rdy i tv); EvRdSaveBefore] ++ (if cut then [EvCutBefore (i + 1); EvCutAfter (i + 1)] else [])
-  ++ [EvRdSaveAfter; EvRdPublish 1 i; EvRdAppendAfter; EvRdAdvance].
-Definition ev_ap (i sn : N) : list event := [EvApBefore (i - 1) 1; EvApAfter i; EvApRaftDone i; EvApTriggerBefore i sn].
+  ++ [EvRdSaveAfter; EvRdPublish 1 i 0; EvRdAppendAfter; EvRdAdvance].
+Definition ev_ap (i sn : N) : list event := [EvApBefore (i - 1) 1 0; EvApAfter i; EvApRaftDone i; EvApTriggerBefore i sn].
 Definition ev_write (i sn : N) (tv cut : bool) : list event := ev_rd i tv cut ++ ev_ap i sn ++ [EvApTriggerAfter i sn].
 (* the same with a snapshot triggered at i: checkpoint taken, goroutine started *)
 Definition ev_write_snap (i sn : N) (tv cut : bool) : list event :=
@@ -96,7 +96,7 @@ Proof. vm_compute. reflexivity. Qed.
 (* before b025328: processReady published the committed entries before persistRaftState although they were
    committed in the same Ready: the apply loop answers the client, the process dies before the WAL write *)
 Definition cfg_before_b025328 : config := mkConfig 2 2 true false true true.
-Definition trace_ack_before_save : list event := [EvRdBegin (rdy 1 true); EvRdPublish 1 1; EvApBefore 0 1; EvApAfter 1].
+Definition trace_ack_before_save : list event := [EvRdBegin (rdy 1 true); EvRdPublish 1 1 0; EvApBefore 0 1 0; EvApAfter 1].
 
 Lemma ack_before_save_refuted :
   exists s, run cfg_before_b025328 init_state trace_ack_before_save = Ok s
@@ -117,8 +117,8 @@ Definition cfg_before_c523023 : config := mkConfig 2 2 true true false true.
 Definition ev_restart (S L : N) : list event :=
   [EvCrash 0 0; EvRcChosen S; EvRsRemoved S; EvRsCopied S; EvRcRestored S; EvRcReplay (L - S) (if L - S =? 0 then 0 else L) L].
 Definition ev_replay_apply (S L : N) : list event :=
-  [EvRdBegin (mkReady 0 0 0 false false 0 (L - S) (S + 1) L); EvRdPublish (L - S) L; EvRdSaveBefore; EvRdSaveAfter; EvRdAppendAfter; EvRdAdvance;
-   EvApBefore S (L - S); EvApAfter L; EvApRaftDone L; EvApTriggerBefore L S; EvApTriggerAfter L S].
+  [EvRdBegin (mkReady 0 0 0 false false 0 (L - S) (S + 1) L 0); EvRdPublish (L - S) L 0; EvRdSaveBefore; EvRdSaveAfter; EvRdAppendAfter; EvRdAdvance;
+   EvApBefore S (L - S) 0; EvApAfter L; EvApRaftDone L; EvApTriggerBefore L S; EvApTriggerAfter L S].
 Definition trace_orphans : list event :=
   ev_write 1 0 true false ++ ev_write 2 0 false true ++ ev_write 3 0 false false ++ ev_write 4 0 false true
   ++ ev_write_snap 5 0 false false ++ ev_sn_to_file 5 ++ ev_sn_rest 5
@@ -164,6 +164,8 @@ Proof.
   all: try (right; right; eexists; split; [reflexivity|]; apply N.eqb_eq in Heqb || idtac; congruence).
   - exfalso. destruct apd; destruct ((0 <? r_n r) || r_hs r && r_tv r); destruct (negb (opt_fsync c) || r_hs r && r_tv r);
       cbn in Hs'; congruence.
+  - right; right; eexists; split; [reflexivity|];
+    match goal with G : negb (_ =? _) = false |- _ => apply negb_false_iff in G; apply N.eqb_eq in G; subst end; congruence.
   - right; right; eexists; split; [reflexivity|];
     match goal with G : negb (_ =? _) = false |- _ => apply negb_false_iff in G; apply N.eqb_eq in G; subst end; congruence.
   - right; right; eexists; split; [reflexivity|];
